@@ -154,7 +154,8 @@ pub fn apply(w: &mut World, op: &PuOp) -> Outcome {
             &pm::ExecuteMsg::ProvideLiquidity {
                 liquidity_max_slippage: liq_slip.map(bps),
                 swap_max_slippage: swap_slip.map(bps),
-                receiver: recv.map(|r| accounts(w)[r].to_string()),
+                // index 99 stands for a string that is not a valid address (the contract falls back to the sender)
+                receiver: recv.map(|r| if r == 99 { "mantra1notavalidaddress".to_string() } else { accounts(w)[r].to_string() }),
                 pool_identifier: pool.clone(),
                 unlocking_duration: *lock,
                 lock_position_identifier: lock_id.clone(),
@@ -305,6 +306,19 @@ pub fn ghost_step(g: &PuGhost, op: &PuOp, pre: &PuObs, post: &PuObs) -> PuGhost 
         PuOp::Donate { denom, amt, .. } => *g.donated.entry(denom.clone()).or_default() += amt,
         PuOp::Provide { funds, .. } if funds.len() == 1 && funds[0].1 % 2 == 1 => *g.odd.entry(funds[0].0.clone()).or_default() += 1,
         _ => {}
+    }
+    if let PuOp::Provide { pool, recv: Some(r), lock: None, .. } = op {
+        if *r == PM {
+            // the depositor asked for the LP to be minted to the pool manager itself: a gift to the contract, booked like a donation
+            if let (Some(p0), Some(p1)) = (pre.pool(pool), post.pool(pool)) {
+                let lp = &p1.pool_info.lp_denom;
+                if pre.sup(lp) > 0 {
+                    let minted = post.sup(lp).saturating_sub(pre.sup(lp));
+                    *g.donated.entry(lp.clone()).or_default() += minted;
+                }
+                let _ = p0;
+            }
+        }
     }
     for p in &post.pools {
         let id = &p.pool_info.pool_identifier;
@@ -567,6 +581,12 @@ pub fn enabled(w: &World, pre: &PuObs, alpha: Alpha) -> Vec<PuOp> {
                 ops.push(pr(A, skew, None, None, None, None));
                 ops.push(pr(A, balanced.clone(), Some(DAY), None, None, None));
                 ops.push(pr(A, balanced.clone(), None, None, Some(B), None));
+                // LP minted to the pool manager itself (a gift), and to a receiver string that is not an address (falls back to the sender)
+                ops.push(pr(A, balanced.clone(), None, None, Some(PM), None));
+                ops.push(pr(A, balanced.clone(), None, None, Some(99), None));
+                if n == 2 {
+                    ops.push(pr(A, vec![(d(0).into(), (r(0) / 100) | 1)], None, None, Some(99), None));
+                }
                 if n == 2 {
                     ops.push(pr(A, balanced.clone(), None, None, None, Some(100)));
                     // lock into an existing position of A (if any) and into B's position (refused)
@@ -649,6 +669,9 @@ pub fn enabled(w: &World, pre: &PuObs, alpha: Alpha) -> Vec<PuOp> {
             }
         }
         if full {
+            // a hop whose input and output denom are the same, alone and inside an otherwise valid route: refused
+            ops.push(route(B, &[("uusd", "uusd", "o.ss")], 1000, None, None));
+            ops.push(route(B, &[("uom", "uusd", "o.cp"), ("uusd", "uusd", "o.ss"), ("uusd", "uom", "o.cp")], 1000, None, None));
             ops.push(route(B, &[("uom", "uusd", "o.cp"), ("uusdc", "uusd", "o.ss")], 1000, None, None)); // non-consecutive: refused
             if has("o.cp2") {
                 // non-consecutive at the second link (the later pool does hold the declared denom), 3 and 4 hops: refused
